@@ -26,7 +26,9 @@ template <typename TScalar>
 py::object pfaffian_np(
     py::array_t<TScalar, py::array::c_style> matrix)
 {
-    Matrix<TScalar> native_matrix = numpy_to_matrix(matrix);
+    // NOTE: The Parlett-Reid algorithm works in place, and `numpy_to_matrix` shares
+    // the memory of the NumPy array, so a copy is needed to leave the input intact.
+    Matrix<TScalar> native_matrix = numpy_to_matrix(matrix).copy();
 
     TScalar result = pfaffian_cpp(native_matrix);
 
